@@ -144,6 +144,8 @@ class SimActorSystem:
         self.timer_late = k.get("timer_late", True)
         self.timer_late_max = k.get("timer_late_max", 2e-3)  # timers fire late, never early; a loaded host is later
         self.hang = None
+        self.step_marks = []
+        self.budget_inconclusive = False
         self.max_virtual = None
         self.dropped_unpicklable = 0
         for i, name in enumerate(self.host_order):
@@ -463,8 +465,12 @@ class SimActorSystem:
         """the scheduler: run events / loop callbacks until stop() is true"""
         while not stop():
             self.steps += 1
+            if self.steps % 20000 == 0:
+                self.step_marks.append(self.clock.now)
             if self.steps > self.max_steps:
                 self.hang = f"step budget of {self.max_steps} exhausted at t={self.clock.now:.3f}"
+                # a livelock does not advance virtual time; a busy system does
+                self.budget_inconclusive = len(self.step_marks) >= 3 and self.clock.now - self.step_marks[-3] > 0.5
                 raise SimHang(self.hang)
             cands = []
             if self.events:
